@@ -310,6 +310,10 @@ def gen_extraction_programs(r, n):
             # one destination already IS an extraction of the OTHER entry (a hard link of its content file: "install v1
             # by hard link, upgrade the same path to v2 by copy"): extracting onto it must not write into that entry
             ops.append(f"hard_link_hash_unchecked s c0 {sri_tok(algo, d2)} out/y")
+            # ... and the caller has files of his own next to it, with names a "careful" implementation might use for a
+            # backup or a temp copy of the destination
+            for sib in ("out/y~", "out/y.tmp", "out/.y", "out/y.bak"):
+                ops.append(f"put {sib} {hx(b'the callers own file ' + sib.encode())}")
         # the content path is a symlink to a file outside the cache that holds the same bytes (what link_to makes,
         # and what a de-duplicating tool leaves): extracting the entry ONTO that very file must leave it alone
         if r.chance(0.25):
@@ -317,6 +321,7 @@ def gen_extraction_programs(r, n):
             dests = dests + [f"ext/blob{i}", f"ext/blob{i}"]
         steps = []
         gone = False
+        siblings = any(o.startswith("put out/y~") for o in ops)
         for j in range(r.randrange(3, 8)):
             if not gone and j >= 2 and r.chance(0.15):
                 ops.append(f"remove_hash {r.pick('sa')} c0 {st}"); gone = True
@@ -333,7 +338,7 @@ def gen_extraction_programs(r, n):
         ops.append(f"read a c0 {hx(k2)}")
         ops.append("dump c0/content-v2")
         ops.append("dump out")
-        progs.append(Program(f"extract{i}", ops, tags={"data": d, "data2": d2, "steps": steps, "gone": gone, "read": rd,
+        progs.append(Program(f"extract{i}", ops, tags={"data": d, "data2": d2, "steps": steps, "gone": gone, "read": rd, "siblings": siblings,
                                                        "variety": ("extract", tuple(sorted({s_[1] for s_ in steps}))[:3], gone)}))
     return progs
 
@@ -360,6 +365,11 @@ def mon_extraction(rr):
                 out.append(Failure("wrong_count", ei, f"{name} returned {res[1]} for {len(d)} bytes", sig=sig))
     # nothing appeared next to the destinations (no directories created for a destination that could not be written)
     files, links, dirs = parse_dump(rr.impl[-1]) if n == len(rr.prog.ops) else ({}, {}, set())
+    if t.get("siblings") and n == len(rr.prog.ops):
+        for sib in ("out/y~", "out/y.tmp", "out/.y", "out/y.bak"):
+            if files.get(sib) != b"the callers own file " + sib.encode():
+                out.append(Failure("outside_destination", n - 1, f"an extraction onto out/y changed the caller's own file {sib} "
+                                   f"({'gone' if sib not in files else 'other bytes'})", sig={"op": "dump", "sibling": sib.split('/')[1]}))
     stray = [x for x in list(dirs) + list(files) if x.startswith("out/nodir")]
     if stray:
         out.append(Failure("created_missing_parents", n - 1, f"an extraction created {sorted(stray)[:3]} outside the cache", sig={"op": "dump"}))
